@@ -55,7 +55,7 @@ PROPS = {
         "level": "other",
         "lean": ["PasfmtModel.Props.C05"],
         "streams": [
-            {"stream": "fmt", "families": "marked", "quick": 2500, "thorough": 40000, "binding": ["out", "*"], "args": {"oracles": "c05"}},
+            {"stream": "fmt", "families": "marked", "quick": 6000, "thorough": 40000, "binding": ["out", "*"], "args": {"oracles": "c05"}},
         ],
         "oracle_prefixes": ["c05", "glue"],
         "abnormal_binding": False,
